@@ -6,6 +6,17 @@ import collections, json
 from vlib import common as C
 from vlib import diff as D
 
+
+def _retry(f, *a):
+    """the shared `driver` executable disappears for a moment whenever somebody relinks it"""
+    import time
+    for _ in range(60):
+        try:
+            return f(*a)
+        except FileNotFoundError:
+            time.sleep(2)
+    return f(*a)
+
 ASSUMPTIONS = [
     "fewer than 2^32 - 2 keys are created in one process (g_key_id is a uint32 that is never reset, ids are unique until it wraps)",
     "ABT_KEY_TABLE_SIZE <= 2^30: the loader can produce 2^31, which does not fit the `int size` field of ABTI_ktable (would also need a 16 GiB table)",
@@ -229,7 +240,7 @@ def oracle(lines, out):
 
 
 def _cmp(exe, lines):
-    return D.compare("ktable", exe, lines)
+    return _retry(D.compare, "ktable", exe, lines)
 
 
 def t2_keys(res, tier, broken):
